@@ -286,8 +286,8 @@ double Interpolation::Integrate(double x_1, double x_2)
 		double x_j			  = x_values[j];
 		double x_left		  = (i == 0) ? x_1 : x_j;
 		double x_right		  = (i == (i_2 - i_1)) ? x_2 : x_values[j + 1];
-		double stemfunc_left  = prefactor * (a[j] / 4.0 * pow((x_left - x_j), 4.0) + b[j] / 3.0 * pow((x_left - x_j), 3.0) + c[j] / 2.0 * pow((x_left - x_j), 2.0) + d[j] * x_left);
-		double stemfunc_right = prefactor * (a[j] / 4.0 * pow((x_right - x_j), 4.0) + b[j] / 3.0 * pow((x_right - x_j), 3.0) + c[j] / 2.0 * pow((x_right - x_j), 2.0) + d[j] * x_right);
+		double stemfunc_left  = prefactor * (a[j] / 4.0 * pow((x_left - x_j), 4.0) + b[j] / 3.0 * pow((x_left - x_j), 3.0) + c[j] / 2.0 * pow((x_left - x_j), 2.0) + d[j] * (x_left - x_j));
+		double stemfunc_right = prefactor * (a[j] / 4.0 * pow((x_right - x_j), 4.0) + b[j] / 3.0 * pow((x_right - x_j), 3.0) + c[j] / 2.0 * pow((x_right - x_j), 2.0) + d[j] * (x_right - x_j));
 		integral += stemfunc_right - stemfunc_left;
 	}
 	return sign * integral;
